@@ -356,6 +356,11 @@ def big_exclusive_bound(doc: dict) -> bool:
     return doc_has(doc, p)
 
 
+def sibling_keywords_of_union(doc: Any) -> bool:
+    """some anyOf / oneOf of the document has validation keywords written next to it"""
+    return doc_has(doc, lambda s_: ("anyOf" in s_ or "oneOf" in s_) and any(k in s_ for k in semfam2.CONSTRAINT_KEYS))
+
+
 def causes_for(doc: dict, inst: Any, style: str, oracle: str = "valid_rejected") -> str:
     if oracle == "dump_mismatch" and style == "v1" and union_str_before_number(doc):
         return "v1_union_left_to_right"
@@ -462,6 +467,8 @@ def oracle_doc(ck: Check, camp, doc: dict, target: tuple, insts: list | None = N
                 cause = "dataclass_non_default_after_default"
             if cause == "none" and kind == semrun.STYLE_MODEL["v2"] and shadowed_class_names(b.code):
                 cause = "member_name_shadows_class_name"
+            if cause == "none" and len(target) >= 2 and routing in ("field", "annotated") and sibling_keywords_of_union(doc):
+                cause = "sibling_keywords_field_routing"
             ck.fail({**base, "oracle": "valid_rejected", "mechanism": "module_not_importable", "cause": cause}, inp, f"the generated module cannot be imported ({b.error[:200]}): no valid instance can be accepted")
         return
     try:
@@ -478,6 +485,8 @@ def oracle_doc(ck: Check, camp, doc: dict, target: tuple, insts: list | None = N
             if cause == "none" and style == "v2" and kind == semrun.STYLE_MODEL["v2"] and shadowed_class_names(b.code):
                 cause = "member_name_shadows_class_name"
             if not ok:
+                if cause == "none" and len(target) >= 2 and routing in ("field", "annotated") and sibling_keywords_of_union(doc) and "TypeError" in str(obj):
+                    cause = "sibling_keywords_field_routing"
                 if cause == "none" and optname == "collapse_root_models" and collapsed_item_count(doc, str(obj)):
                     cause = "collapse_root_models_array_def_item_count"
                 ck.fail({**base, "oracle": "valid_rejected", "mechanism": "validation_error", "cause": cause}, {**inp, "instance": inst}, f"valid instance rejected: {str(obj)[:300]}")
@@ -757,19 +766,24 @@ def campaign_random(ck: Check, n: int) -> None:
 FAMILY_TARGETS = [*TARGETS, ("dataclasses.dataclass",), ("typing.TypedDict",)]
 # the bounds of an integer are written by the pydantic type managers (constrained type) or the field (Field()):
 # both styles × the constrained-type and the Field() routing
+# keywords next to anyOf/oneOf: under the Field() routing they are written as Field() arguments of members they cannot
+# apply to (known finding C03-sibling-field: nothing is accepted there); v1-style unions coerce left to right (D35)
+SIB_TARGETS = [("v2", "contype"), ("dataclasses.dataclass",), ("typing.TypedDict",)]
 FRAC_TARGETS = [("v2", "contype"), ("v1", "contype"), ("v2", "field"), ("v1", "field")]
 
 
-def campaign_family(ck: Check, n_nullable: int, n_nested: int, n_frac: int = 0) -> None:
+def campaign_family(ck: Check, n_nullable: int, n_nested: int, n_frac: int = 0, n_sib: int = 0) -> None:
     """two families the general generator does not reach (vlib/semfam.py), every document through every target"""
     ca = ck.campaign("e2e oracle, family: nullable type lists [T, \"null\"] for every type T × every position, null instances at exactly that position")
     cb = ck.campaign("e2e oracle, family: combinations (allOf / oneOf / anyOf) nested in allOf members, with and without sibling properties, instances carrying the nested members")
     cf = ck.campaign("e2e oracle, family: integer-typed schemas with NON-INTEGRAL bounds (4 bound keywords × bound below -1 / in (-1,0) / in (0,1) / above 1 × fractions × every place), the boundary integers floor(b)-1 … ceil(b)+1 as instances")
-    for camp, n, gen, fork in ((ca, n_nullable, semfam.nullable_doc, "fam-nullable"), (cb, n_nested, semfam.nested_allof_doc, "fam-nested"), (cf, n_frac, semfam2.fracbound_doc, "fam-fracbound")):
+    cs = ck.campaign("e2e oracle, family: validation keywords as SIBLINGS of anyOf/oneOf × member order (null first / middle / last / absent) × scalar kind × 2-3 members × every place: values inside the bounds, null, the other members' values (v2 constrained types, dataclass, TypedDict; the Field() routing of this family is known finding C03-sibling-field)")
+    sib_gen = lambda r, k, plain=False: semfam2.sibling_union_doc(r, k, plain)[:3]  # noqa: E731
+    for camp, n, gen, fork in ((ca, n_nullable, semfam.nullable_doc, "fam-nullable"), (cb, n_nested, semfam.nested_allof_doc, "fam-nested"), (cf, n_frac, semfam2.fracbound_doc, "fam-fracbound"), (cs, n_sib, sib_gen, "fam-siblings")):
         t0 = time.time()
         rng = ck.rng.fork(fork)
         off = rng.below(96)
-        targets = FAMILY_TARGETS if camp is not cf else FRAC_TARGETS
+        targets = FRAC_TARGETS if camp is cf else (SIB_TARGETS if camp is cs else FAMILY_TARGETS)
         for i in range(n):
             plain = i % 2 == 1  # dataclass output has no aliases: plain member names in every second document
             doc, feats, cand = gen(rng.fork(str(i)), off + i, plain)
@@ -865,7 +879,7 @@ def run(ck: Check) -> None:
     campaign_model(ck, 40 if quick else 400)
     campaign_focused(ck)
     campaign_random(ck, 70 if quick else 900)
-    campaign_family(ck, 13 if quick else 130, 8 if quick else 100, 16 if quick else 96)
+    campaign_family(ck, 13 if quick else 130, 8 if quick else 100, 16 if quick else 96, 12 if quick else 96)
     ck.search_hooks.append(search)
     known_findings(ck)
 
